@@ -85,6 +85,7 @@ structure SameCore (s t : State) : Prop where
   unsent : t.unsent = s.unsent
   checked : t.checked = s.checked
   executed : t.executed = s.executed
+  lost : t.lost = s.lost
 
 theorem SameCore.refl (s : State) : SameCore s s := by constructor <;> rfl
 
@@ -98,6 +99,7 @@ theorem SameCore.trans {s t u : State} (h1 : SameCore s t) (h2 : SameCore t u) :
     | exact h2.connA.trans h1.connA | exact h2.connB.trans h1.connB | exact h2.pendA.trans h1.pendA
     | exact h2.wireAB.trans h1.wireAB | exact h2.wireBA.trans h1.wireBA | exact h2.issued.trans h1.issued
     | exact h2.unsent.trans h1.unsent | exact h2.checked.trans h1.checked | exact h2.executed.trans h1.executed
+    | exact h2.lost.trans h1.lost
 
 theorem routeAll_nil (s : State) (o : Outcome) : routeAll attr s [] o = s := rfl
 
